@@ -39,6 +39,15 @@ func pos(x int) int {
 	return 0
 }
 
+// mag: the buffer a caller would pass for a negative dimension is sized by its magnitude, so that a
+// buffer-length check cannot stand in for the missing dimension check (e.g. -1 x -1: product positive).
+func mag(x int) int {
+	if x < 0 {
+		return -x
+	}
+	return x
+}
+
 // foreignParams is a codec.Parameters implementation the codecs know nothing about; it answers every
 // name with a value of an unexpected type.
 type foreignParams struct{}
@@ -74,7 +83,7 @@ func runC17(args []string) error {
 		if a.P > 8 {
 			bytesPer = 2
 		}
-		req := pos(a.W) * pos(a.H) * pos(a.C) * bytesPer
+		req := mag(a.W) * mag(a.H) * mag(a.C) * bytesPer
 		if req > 64<<20 {
 			continue // keep memory small; such tuples are out of the generator's Sane() scope anyway
 		}
@@ -88,7 +97,7 @@ func runC17(args []string) error {
 		case "req+1":
 			a.BufLen = req + 1
 		case "row":
-			a.BufLen = pos(a.W) * pos(a.C) * bytesPer
+			a.BufLen = mag(a.W) * mag(a.C) * bytesPer
 		case "half":
 			a.BufLen = req / 2
 		default:
